@@ -125,6 +125,8 @@ pub fn gen_defs(r: &mut Rng) -> Vec<Def> {
         let lo_limit = (fa as u32) << (8 * (len as u32 - 1));
         let hi_limit = (((fb as u32) + 1) << (8 * (len as u32 - 1))).wrapping_sub(1).min(max_code(len));
         let kind = r.below(10);
+        // most producers keep a range inside one 256-code block; merged ranges (and identity maps) cross blocks
+        let block = |r: &mut Rng, lo: u32| if r.chance(1, 4) { u32::MAX } else { lo | 0xFF };
         // start near an existing definition half of the time: adjacency and overlap
         // (a neighbour now and then repeats the earlier definition's destination: the same ligature on adjacent codes)
         let mut reuse: Option<(Target, u32)> = None;
@@ -151,11 +153,11 @@ pub fn gen_defs(r: &mut Rng) -> Vec<Def> {
             match t {
                 Target::Single(t) => {
                     let span = if r.bool() { 0 } else { r.below(room as u64 + 1) as u32 };
-                    let hi = lo.saturating_add(span).min(hi_limit).min(lo | 0xFF);
+                    let hi = lo.saturating_add(span).min(hi_limit).min(block(r, lo));
                     defs.push(Def { len, lo, hi, target: Target::Single(t), as_char: hi == lo && r.bool() });
                 }
                 Target::Array(a) => {
-                    let hi = lo.saturating_add(a.len() as u32 - 1).min(hi_limit).min(lo | 0xFF);
+                    let hi = lo.saturating_add(a.len() as u32 - 1).min(hi_limit).min(block(r, lo));
                     let a: Vec<Vec<u16>> = a[..(hi - lo + 1) as usize].to_vec();
                     defs.push(Def { len, lo, hi, target: Target::Array(a), as_char: false });
                 }
@@ -172,12 +174,12 @@ pub fn gen_defs(r: &mut Rng) -> Vec<Def> {
                 _ => r.below(300) as u32,
             };
             // a range must not cross the last byte boundary? (Adobe: only the last byte varies). Keep within one 256-block
-            let hi = lo.saturating_add(span).min(hi_limit).min(lo | 0xFF);
+            let hi = lo.saturating_add(span).min(hi_limit).min(block(r, lo));
             let t = random_target(r, hi - lo);
             defs.push(Def { len, lo, hi, target: Target::Single(t), as_char: false });
         } else {
             let span = r.below(12) as u32;
-            let hi = lo.saturating_add(span).min(hi_limit).min(lo | 0xFF);
+            let hi = lo.saturating_add(span).min(hi_limit).min(block(r, lo));
             let n = (hi - lo + 1) as usize;
             let a: Vec<Vec<u16>> = match r.below(3) {
                 // arrays producers really write are mostly runs of neighbouring code points: consecutive, consecutive
